@@ -289,6 +289,8 @@ class World:
         # the same regular expression used by functions with different matching semantics (search / anchored match / ~)
         self.GREP = select([(F('grep', C('b'), k), 'g'), (F('grepn', C('(a)|(b)'), k, C(0)), 'gn'), (A.Match(k, C('b')), 'm')], from_='t')
         self.FINDFIRST = fresh_parse("SELECT findfirst('o', tags) AS f, findfirst('b', other_accounts) AS g, grep('o', narration) AS n FROM #postings WHERE year = 2019 AND month <= 2")
+        self.PRINTQ = fresh_parse('PRINT FROM year = 2019 AND month = 1')
+        self.ENTRIES = fresh_parse("SELECT type, date FROM #entries WHERE type != 'transaction' AND type != 'open' ORDER BY date, type")
         self.SUBST = select([(F('subst', C('b'), C('X'), k), 's'), (F('upper', k), 'u')], from_='t')
 
     def events(self):
@@ -311,7 +313,17 @@ class World:
             ('GREP', lambda: c.execute(self.GREP)),
             ('FINDFIRST', lambda: c.execute(self.FINDFIRST)),
             ('SUBST', lambda: c.execute(self.SUBST)),
+            ('PRINT', lambda: self._print()),
+            ('ENTRIES', lambda: c.execute(self.ENTRIES)),
         ]
+
+    def _print(self):
+        # what the shell does for a PRINT statement: compile, then execute_print into a file
+        import io
+        from beanquery import query_execute
+        out = io.StringIO()
+        query_execute.execute_print(self.conn.compile(self.PRINTQ), out)
+        return _TextResult(out.getvalue())
 
     def _many(self):
         cur = self.conn.cursor()
@@ -322,6 +334,16 @@ class World:
         from beancount.core.compare import hash_entry
         return (repr(self.t.rows), repr(self.u.rows), len(self.entries), tuple(hash_entry(e) for e in self.entries),
                 tuple(id(e) for e in self.entries))
+
+
+class _TextResult:
+    description = ()
+
+    def __init__(self, text):
+        self.text = text
+
+    def fetchall(self):
+        return [(self.text,)]
 
 
 def run_event(fn):
